@@ -10,12 +10,17 @@ out the two ends of that socketpair instead of a kernel socket.
 
 Parts (DESIGN.md section 5, C18):
 
-(a) honest x honest, every interleaving of the two sides' kernel operations
-    within the preemption bound, for a table of key pairs;
-(b) honest x scripted adversary: all 12**3 scripts against each honest role;
+(a) honest x honest for a table of 19 key pairs: every interleaving of the
+    two sides' kernel operations (unbounded; the space is small), and again
+    with the kernel performing reads/writes short (preemptions + short
+    operations <= 2 quick / 3 thorough);
+(b) honest x scripted adversary: all 12**3 scripts against each honest role
+    and each key size (see ``expected`` for what the statement demands);
 (c) freshness of the challenge over consecutive sessions (os.urandom is the
     counter source of the virtual OS);
-(d) non-bytes keys, and pickling of ``AuthenticationString``.
+(d) non-bytes keys, and pickling of ``AuthenticationString``;
+plus a conformance replay of the key table and of the single-deviation scripts
+over kernel AF_UNIX sockets with the untouched SocketListener/SocketClient.
 """
 import hmac as _hmac
 import itertools
@@ -818,7 +823,7 @@ def items(tier):
     for role in ('listener', 'client'):
         for size in SIZES:
             scripts = list(itertools.product(ALPHABET, repeat=3))
-            nchunk = 8
+            nchunk = 24
             for i in range(nchunk):
                 out.append(('table', 'b-honest-%s-x-adversary' % role,
                             [dict(kind='adv', role=role, size=size,
@@ -841,6 +846,11 @@ def main(tier, seed, only=None):
     import random
     order = list(range(len(work)))
     random.Random(seed).shuffle(order)
+    # heaviest units first (still a seed-determined permutation): the
+    # equal-key short-io explorations are ~10x the rest
+    order.sort(key=lambda i: not (work[i][0] == 'dfs' and
+                                  work[i][2]['split'] and
+                                  work[i][2]['variant'] == 'equal'))
     res = par.pmap('harness.c18:_work', [work[i] for i in order])
     parts = {}
     for d in sorted(res, key=lambda d: (d['part'], repr(d['violations']))):
